@@ -241,6 +241,22 @@ class Func:
         return "<Func %s %s:%d>" % (self.name, self.relfile, self.line)
 
 
+def _name_indirect_calls(body):
+    """calls through the ring / curve descriptors (the qrXxx / ecXxx macros) get the macro's name as callee;
+    `indirect` and `fn` stay so that analyses that care can tell"""
+    if body is None:
+        return
+    for n in walk(body):
+        if n.get("k") == "Call" and "callee" not in n and n.get("fn") is not None:
+            fn = strip(n["fn"])
+            if fn.get("k") == "Un" and fn["op"] == "*":
+                fn = strip(fn["e"])
+            if fn.get("k") == "Member" and fn.get("rec") in ("qr_o", "ec_o"):
+                pre = "qr" if fn["rec"] == "qr_o" else "ec"
+                n["callee"] = pre + fn["f"][0].upper() + fn["f"][1:]
+                n["indirect"] = fn["rec"]
+
+
 class Program:
     """all units of one configuration"""
 
@@ -260,6 +276,7 @@ class Program:
             d = frontend.load_json(p)
             self.units[u] = d
             for fd in d["functions"]:
+                _name_indirect_calls(fd.get("body"))
                 f = Func(fd, u)
                 self.by_unit[u].append(f)
                 if f.static or fd.get("inline"):
